@@ -89,6 +89,15 @@ def _has_return_in_loop(body: list[ast.stmt]) -> bool:
     return walk(body, False)
 
 
+def _simple_expr(e: ast.AST) -> bool:
+    """cheap, effect-free, re-evaluable key expression: names, attribute chains, constants, type(x)/len(x) of those"""
+    if _simple(e):
+        return True
+    if isinstance(e, ast.Call) and isinstance(e.func, ast.Name) and e.func.id in ("type", "len") and len(e.args) == 1 and not e.keywords:
+        return _simple_expr(e.args[0])
+    return False
+
+
 def _simple(e: ast.AST) -> bool:
     if isinstance(e, (ast.Name, ast.Constant)):
         return True
@@ -102,7 +111,7 @@ class Flattener:
         self.repo = repo
         self.inlined: list[tuple[str, str]] = []
 
-    def inlinable_target(self, call: ast.Call, ctx_fi: FuncInfo, stack: tuple[str, ...], gen: bool = False) -> FuncInfo | None:
+    def inlinable_target(self, call: ast.Call, ctx_fi: FuncInfo, stack: tuple[str, ...], gen: bool = False, cm: bool = False) -> FuncInfo | None:
         fn = call.func
         if any(isinstance(a, ast.Starred) for a in call.args) or any(k.arg is None for k in call.keywords):
             return None
@@ -132,7 +141,17 @@ class Flattener:
         if isinstance(t.node, ast.Lambda) or isinstance(t.node, ast.AsyncFunctionDef):
             return None
         ys = [x for x in ast.walk(t.node) if isinstance(x, (ast.Yield, ast.YieldFrom, ast.Await))]
-        if gen:
+        decos0 = {unparse(d) for d in t.node.decorator_list}
+        is_cm = bool(decos0 & {"contextmanager", "contextlib.contextmanager"})
+        if cm != is_cm:
+            return None
+        if cm:
+            # @contextmanager helper with exactly one statement-level yield outside any loop, and no return
+            stmts_y = [x for x in ast.walk(t.node) if isinstance(x, ast.Expr) and isinstance(x.value, ast.Yield)]
+            in_loop = any(isinstance(x, (ast.For, ast.While)) and any(y is stmts_y[0] for y in ast.walk(x)) for x in ast.walk(t.node)) if stmts_y else True
+            if len(ys) != 1 or len(stmts_y) != 1 or in_loop or any(isinstance(x, ast.Return) for x in ast.walk(t.node)):
+                return None
+        elif gen:
             # simple generators only: every yield is a statement of its own
             stmts_y = [x.value for x in ast.walk(t.node) if isinstance(x, ast.Expr) and isinstance(x.value, ast.Yield)]
             if not ys or len(stmts_y) != len(ys) or any(not isinstance(y, ast.Yield) or y.value is None for y in ys):
@@ -143,7 +162,7 @@ class Flattener:
         if a.vararg or a.kwarg or a.posonlyargs and False:
             return None
         decos = {unparse(d) for d in t.node.decorator_list}
-        if decos - {"staticmethod", "classmethod"}:
+        if decos - {"staticmethod", "classmethod"} - ({"contextmanager", "contextlib.contextmanager"} if cm else set()):
             return None
         return t
 
@@ -312,6 +331,33 @@ class Flattener:
             ast.fix_missing_locations(second)
             rep = self.expand_stmt(first, ctx_fi, caller_names | {tmp}, stack, depth)
             return (rep if rep is not None else [first]) + [second]
+        if isinstance(s, ast.With) and len(s.items) == 1 and isinstance(s.items[0].context_expr, ast.Call):
+            t = self.inlinable_target(s.items[0].context_expr, ctx_fi, stack, cm=True)
+            bound = self.bind(s.items[0].context_expr, t, caller_names) if t is not None else None
+            if bound is not None:
+                # with helper_cm(args) [as v]: body   ==>   the helper's body with `yield x` replaced by `[v = x;] body`
+                prologue, body = bound
+                with_body, as_var = s.body, s.items[0].optional_vars
+
+                class _Y(ast.NodeTransformer):
+                    def visit_Expr(self_, node):  # noqa: N805
+                        if isinstance(node.value, ast.Yield):
+                            out = []
+                            if as_var is not None:
+                                out.append(ast.copy_location(ast.Assign(targets=[copy.deepcopy(as_var)], value=node.value.value or ast.Constant(value=None)), node))
+                            out.extend(with_body)
+                            return out
+                        return node
+
+                    def visit_FunctionDef(self_, node):  # noqa: N805
+                        return node
+                new = prologue + [x for st_ in body for x in (lambda r: r if isinstance(r, list) else [r])(_Y().visit(st_))]
+                for x in new:
+                    ast.fix_missing_locations(x)
+                self.inlined.append((ctx_fi.short, t.short))
+                if depth > 1:
+                    new = self.flatten_block(new, ctx_fi, caller_names | _names_stored(new), stack + (t.qualname,), depth - 1, resolve_ctx=t)
+                return new
         if isinstance(s, ast.For) and isinstance(s.iter, ast.Call) and not s.orelse \
                 and not any(isinstance(x, (ast.Break, ast.Continue, ast.Return, ast.Yield, ast.YieldFrom)) for b in s.body for x in ast.walk(b)):
             t = self.inlinable_target(s.iter, ctx_fi, stack, gen=True)
@@ -467,12 +513,174 @@ class Flattener:
                 caller_names |= _names_stored(rep)  # later helpers must not reuse these names
         return out
 
+    # ------------------------------------------------------------ table dispatch
+    def _const_table(self, e: ast.AST, fi: FuncInfo) -> tuple[ast.Dict, str | None] | None:
+        """the dict display a never-mutated class- or module-level table expression denotes: (display, owning class)"""
+        name = cls = None
+        if isinstance(e, ast.Attribute) and isinstance(e.value, ast.Name) and (e.value.id in ("self", "cls") or e.value.id in self.repo.classes):
+            name = e.attr
+            ci = fi.cls if e.value.id in ("self", "cls") else self.repo.classes.get(e.value.id)
+            p = fi
+            while ci is None and p is not None:
+                ci, p = p.cls, p.parent
+            seen = set()
+            while ci is not None and ci.name not in seen:
+                seen.add(ci.name)
+                for st in ci.node.body:
+                    tgt = st.targets[0] if isinstance(st, ast.Assign) and len(st.targets) == 1 else (st.target if isinstance(st, ast.AnnAssign) else None)
+                    if isinstance(tgt, ast.Name) and tgt.id == name and isinstance(getattr(st, "value", None), ast.Dict):
+                        # the table must never be written to: no subscript stores / mutator calls on .<name> anywhere
+                        for f in self.repo.funcs.values():
+                            for x in ast.walk(f.node):
+                                if isinstance(x, ast.Attribute) and x.attr == name and isinstance(x.ctx, (ast.Store, ast.Del)):
+                                    return None
+                                if isinstance(x, ast.Subscript) and isinstance(x.ctx, (ast.Store, ast.Del)) and isinstance(x.value, ast.Attribute) and x.value.attr == name:
+                                    return None
+                                if isinstance(x, ast.Call) and isinstance(x.func, ast.Attribute) and x.func.attr in ("update", "pop", "setdefault", "clear", "popitem") \
+                                        and isinstance(x.func.value, ast.Attribute) and x.func.value.attr == name:
+                                    return None
+                        for st2 in ci.node.body:
+                            if st2 is not st and any(isinstance(x, ast.Subscript) and isinstance(x.ctx, ast.Store) and isinstance(x.value, ast.Name) and x.value.id == name for x in ast.walk(st2)):
+                                return None
+                        return st.value, ci.name
+                ci = next((self.repo.classes.get(b) for b in ci.bases if b in self.repo.classes), None)
+            return None
+        if isinstance(e, ast.Name) and e.id not in fi.params():
+            for st in fi.module.tree.body:
+                tgt = st.targets[0] if isinstance(st, ast.Assign) and len(st.targets) == 1 else (st.target if isinstance(st, ast.AnnAssign) else None)
+                if isinstance(tgt, ast.Name) and tgt.id == e.id and isinstance(getattr(st, "value", None), ast.Dict):
+                    for x in ast.walk(fi.module.tree):
+                        if isinstance(x, ast.Subscript) and isinstance(x.ctx, (ast.Store, ast.Del)) and isinstance(x.value, ast.Name) and x.value.id == e.id:
+                            return None
+                    return st.value, None
+        return None
+
+    def normalise_dispatch(self, fi: FuncInfo, node: ast.AST) -> None:
+        """`f = TABLE.get(k)` / `f = TABLE[k]` ... `f(args)` with a constant {key: function} table  ==>  an
+        if/elif chain on the key calling the functions by name (which the helper inliner can then expand)"""
+        body = getattr(node, "body", None)
+        if not isinstance(body, list):
+            return
+        lookups: dict[str, tuple[ast.Dict, str | None, ast.AST, bool]] = {}
+        stores: dict[str, int] = {}
+        for x in ast.walk(node):
+            if isinstance(x, ast.Name) and isinstance(x.ctx, ast.Store):
+                stores[x.id] = stores.get(x.id, 0) + 1
+        for x in ast.walk(node):
+            if isinstance(x, ast.Assign) and len(x.targets) == 1 and isinstance(x.targets[0], ast.Name) and stores.get(x.targets[0].id) == 1:
+                v = x.value
+                key = tab = None
+                soft = False
+                if isinstance(v, ast.Call) and isinstance(v.func, ast.Attribute) and v.func.attr == "get" and 1 <= len(v.args) <= 2 and not v.keywords \
+                        and (len(v.args) == 1 or (isinstance(v.args[1], ast.Constant) and v.args[1].value is None)):
+                    tab, key, soft = v.func.value, v.args[0], True
+                elif isinstance(v, ast.Subscript) and not isinstance(v.slice, ast.Slice):
+                    tab, key = v.value, v.slice
+                if tab is None or not _simple_expr(key):
+                    continue
+                ct = self._const_table(tab, fi)
+                if ct is None or not ct[0].keys or not all(isinstance(val, ast.Name) for val in ct[0].values) or any(k is None for k in ct[0].keys):
+                    continue
+                lookups[x.targets[0].id] = (ct[0], ct[1], key, soft)
+        if not lookups:
+            return
+
+        guarded: set[str] = set()
+        for x in ast.walk(node):
+            if isinstance(x, ast.If) and isinstance(x.test, ast.Compare) and isinstance(x.test.left, ast.Name) and x.test.left.id in lookups and len(x.test.ops) == 1 \
+                    and isinstance(x.test.ops[0], ast.Is) and isinstance(x.test.comparators[0], ast.Constant) and x.test.comparators[0].value is None \
+                    and x.body and isinstance(x.body[-1], (ast.Raise, ast.Return, ast.Continue, ast.Break)):
+                guarded.add(x.test.left.id)  # `if f is None: <leave>` -- a miss never reaches the call
+
+        def chain(call: ast.Call, mk) -> ast.stmt:
+            disp, owner, key, soft = lookups[call.func.id]
+            arms = []
+            for k, fn in zip(disp.keys, disp.values):
+                is_type = isinstance(k, ast.Name) and k.id in ("list", "dict", "tuple", "set", "frozenset", "int", "float", "str", "bytes", "bool", "complex")
+                test = ast.Compare(left=copy.deepcopy(key), ops=[ast.Is() if is_type else ast.Eq()], comparators=[copy.deepcopy(k)])
+                target: ast.AST = ast.Name(id=fn.id, ctx=ast.Load())
+                if owner is not None and fn.id not in fi.module.functions:
+                    target = ast.Attribute(value=ast.Name(id=owner, ctx=ast.Load()), attr=fn.id, ctx=ast.Load())
+                c2 = ast.Call(func=target, args=copy.deepcopy(call.args), keywords=copy.deepcopy(call.keywords))
+                arms.append((test, mk(c2)))
+            orelse: list[ast.stmt] = [ast.Raise(exc=ast.Call(func=ast.Name(id="TypeError", ctx=ast.Load()), args=[ast.Constant(value="'NoneType' object is not callable")], keywords=[]), cause=None)] if soft else [ast.Raise(exc=ast.Call(func=ast.Name(id="KeyError", ctx=ast.Load()), args=[copy.deepcopy(key)], keywords=[]), cause=None)]
+            if soft and call.func.id in guarded and arms:
+                # membership was established by the guard: the last arm needs no test of its own
+                orelse = [arms[-1][1]]
+                arms = arms[:-1]
+            for test, st in reversed(arms):
+                orelse = [ast.If(test=test, body=[st], orelse=orelse)]
+            return orelse[0]
+
+        changed = False
+
+        def rewrite(stmts: list[ast.stmt]) -> list[ast.stmt]:
+            nonlocal changed
+            out = []
+            for s in stmts:
+                for name in ("body", "orelse", "finalbody"):
+                    sub_ = getattr(s, name, None)
+                    if isinstance(sub_, list) and sub_ and isinstance(sub_[0], ast.stmt) and not isinstance(s, (ast.FunctionDef, ast.ClassDef)):
+                        setattr(s, name, rewrite(sub_))
+                for h in getattr(s, "handlers", []) or []:
+                    h.body = rewrite(h.body)
+                v = getattr(s, "value", None)
+                if isinstance(s, (ast.Expr, ast.Assign, ast.Return)) and isinstance(v, ast.Call) and isinstance(v.func, ast.Name) and v.func.id in lookups:
+                    if isinstance(s, ast.Expr):
+                        new = chain(v, lambda c: ast.Expr(value=c))
+                    elif isinstance(s, ast.Return):
+                        new = chain(v, lambda c: ast.Return(value=c))
+                    else:
+                        new = chain(v, lambda c, s=s: ast.Assign(targets=copy.deepcopy(s.targets), value=c))
+                    ast.copy_location(new, s)
+                    for x in ast.walk(new):
+                        ast.copy_location(x, s)
+                    out.append(new)
+                    changed = True
+                    continue
+                out.append(s)
+            return out
+
+        node.body = rewrite(body)
+        if changed:
+            self.inlined.append((fi.short, "<table dispatch>"))
+            # a looked-up function that is now only tested against None: test the key instead and drop the lookup
+            for fname, (disp, owner, key, soft) in lookups.items():
+                uses = [x for x in ast.walk(node) if isinstance(x, ast.Name) and x.id == fname and isinstance(x.ctx, ast.Load)]
+                tests = [x for x in ast.walk(node) if isinstance(x, ast.Compare) and isinstance(x.left, ast.Name) and x.left.id == fname and len(x.ops) == 1
+                         and isinstance(x.ops[0], (ast.Is, ast.IsNot)) and isinstance(x.comparators[0], ast.Constant) and x.comparators[0].value is None]
+                if not soft or len(uses) != len(tests):
+                    continue
+
+                def member() -> ast.AST:
+                    alts = []
+                    for k in disp.keys:
+                        is_type = isinstance(k, ast.Name) and k.id in ("list", "dict", "tuple", "set", "frozenset", "int", "float", "str", "bytes", "bool", "complex")
+                        alts.append(ast.Compare(left=copy.deepcopy(key), ops=[ast.Is() if is_type else ast.Eq()], comparators=[copy.deepcopy(k)]))
+                    return alts[0] if len(alts) == 1 else ast.BoolOp(op=ast.Or(), values=alts)
+
+                class _T(ast.NodeTransformer):
+                    def visit_Compare(self_, x):  # noqa: N805
+                        if any(x is t for t in tests):
+                            m = member()
+                            new = m if isinstance(x.ops[0], ast.IsNot) else ast.UnaryOp(op=ast.Not(), operand=m)
+                            return ast.copy_location(new, x)
+                        return self_.generic_visit(x)
+
+                    def visit_Assign(self_, x):  # noqa: N805
+                        if len(x.targets) == 1 and isinstance(x.targets[0], ast.Name) and x.targets[0].id == fname:
+                            return ast.copy_location(ast.Pass(), x)
+                        return self_.generic_visit(x)
+                _T().visit(node)
+                ast.fix_missing_locations(node)
+
     def flatten(self, fi: FuncInfo) -> ast.FunctionDef | None:
         if isinstance(fi.node, ast.Lambda):
             return None
         self.inlined = []
         node = copy.deepcopy(fi.node)
         names = _names_used(node) | {a.arg for a in node.args.args}
+        self.normalise_dispatch(fi, node)
         node.body = self.flatten_block(node.body, fi, names, (fi.qualname,), MAXDEPTH)
         if not self.inlined:
             return None
